@@ -681,15 +681,28 @@ func ruleAnswerWaiting(c *Ctx) {
 	sp := &Spec{}
 	sp.Classify = func(t *Tracer, fr *Frame, in ssa.Instruction) []Ev {
 		if r, ok := in.(*ssa.Range); ok {
-			if f, base := fieldLoad(t.Resolve(fr, r.X).V); f == fSubs {
+			rx := t.Resolve(fr, r.X)
+			if f, base := fieldLoad(rx.V); f == fSubs {
 				// of the receiver itself (rs), not of the normalised entry (nrs)
-				if b := t.Resolve(fr, base); b.V == ssa.Value(fn.Params[0]) || fr.ID == -1 {
+				if fr.ID == -1 || base == nil {
+					return []Ev{{Kind: "clone-waiting"}}
+				}
+				if b := t.Resolve(rx.Fr, base); b.V == ssa.Value(fn.Params[0]) {
 					return []Ev{{Kind: "clone-waiting"}}
 				}
 			}
 		}
 		if _, ok := in.(*ssa.Return); ok && fr == t.RootFr {
 			return []Ev{{Kind: "return"}}
+		}
+		// the whole set taken over through a take helper (detachSubscribers)
+		if call, ok := in.(ssa.CallInstruction); ok {
+			if sf := call.Common().StaticCallee(); sf != nil && p.takesField(sf, fSubs) {
+				args := call.Common().Args
+				if len(args) > 0 && (fr.ID == -1 || t.Resolve(fr, args[0]).V == ssa.Value(fn.Params[0])) {
+					return []Ev{{Kind: "clone-waiting", Stop: true}}
+				}
+			}
 		}
 		return nil
 	}
@@ -868,30 +881,46 @@ func ruleUnregister(c *Ctx) {
 			}
 		}
 		g := st.Parent()
-		c.inst(1)
-		sp2 := &Spec{}
-		sp2.Classify = func(t *Tracer, fr *Frame, in ssa.Instruction) []Ev {
-			if in == ssa.Instruction(st) {
-				return []Ev{{Kind: "subs=nil"}}
-			}
-			if call, ok := in.(ssa.CallInstruction); ok && unregM != nil {
-				if cf := calleeFunc(call.Common()); cf == unregM {
-					return []Ev{{Kind: "unregister", Stop: true}}
+		// a take helper (`detachSubscribers`): the obligation is its callers'
+		roots := []*ssa.Function{TopLevel(g)}
+		if p.takesField(g, fSubs) {
+			roots = nil
+			if node := p.CG.Nodes[g]; node != nil {
+				seenRoot := map[*ssa.Function]bool{}
+				for _, e := range node.In {
+					if e.Site != nil && e.Site.Common().StaticCallee() == g && !seenRoot[TopLevel(e.Caller.Func)] {
+						seenRoot[TopLevel(e.Caller.Func)] = true
+						roots = append(roots, TopLevel(e.Caller.Func))
+					}
 				}
 			}
-			return nil
 		}
-		tr2 := runTrace(p, TopLevel(g), sp2)
-		bad2 := ""
-		for _, path := range tr2.Paths {
-			if hasKind(path, "subs=nil") && !hasKind(path, "unregister") {
-				bad2 = "the entry drops its subscribers but stays registered: " + tr2.FmtPath(path)
+		for _, root2 := range roots {
+			c.inst(1)
+			sp2 := &Spec{InlineHelpers: true}
+			sp2.Classify = func(t *Tracer, fr *Frame, in ssa.Instruction) []Ev {
+				if in == ssa.Instruction(st) {
+					return []Ev{{Kind: "subs=nil"}}
+				}
+				if call, ok := in.(ssa.CallInstruction); ok && unregM != nil {
+					if cf := calleeFunc(call.Common()); cf == unregM {
+						return []Ev{{Kind: "unregister", Stop: true}}
+					}
+				}
+				return nil
 			}
+			tr2 := runTrace(p, root2, sp2)
+			bad2 := ""
+			for _, path := range tr2.Paths {
+				if hasKind(path, "subs=nil") && !hasKind(path, "unregister") {
+					bad2 = "the entry drops its subscribers but stays registered: " + tr2.FmtPath(path)
+				}
+			}
+			if tr2.Trunc {
+				bad2 = "path budget exhausted"
+			}
+			c.check(bad2 == "", fnName(root2), "an entry that drops its subscriber set is unregistered on the same path", p.InstrPos(st), fmt.Sprintf("%d paths", len(tr2.Paths)), bad2)
 		}
-		if tr2.Trunc {
-			bad2 = "path budget exhausted"
-		}
-		c.check(bad2 == "", fnName(g), "an entry that drops its subscriber set is unregistered on the same path", p.InstrPos(st), fmt.Sprintf("%d paths", len(tr2.Paths)), bad2)
 	}
 }
 
